@@ -482,6 +482,35 @@ def _reachable_without(body, node, blocked_edges):
     return node in r
 
 
+def check_nonblocking_inventory(ctx):
+    """an operation that silently skips its work when a lock or channel is busy cannot carry an acknowledgement: non-blocking
+    acquisitions / sends exist only at the reviewed best-effort sites (buffer-full trigger, periodic trigger, eviction sweep);
+    everything on the acknowledged path (force_flush, workers, retirement, cache invalidation) blocks"""
+    inst = "C02.ack/nonblocking"
+    table = {
+        "WriteBuffer::trigger_flush": ("Sender::try_send",),          # buffer-full hint; the periodic flusher and flush() cover the rest
+        "WriteBuffer::start_workers": ("Sender::try_send",),          # periodic flusher's hint (closure)
+        "ClockCache::evict_entries": ("Mutex::try_lock",),            # one sweep at a time; the next insert sweeps again
+    }
+    sel = ("RwLock::try_write", "RwLock::try_read", "Mutex::try_lock", "Sender::try_send", "Receiver::try_recv", "RwLock::try_write_for",
+           "RwLock::try_read_for", "Mutex::try_lock_for", "Sender::send_timeout", "OnceLock::set")
+    found = 0
+    for b in ctx.prog.product_bodies():
+        for n in b.calls():
+            hit = [t for t in sel[:9] if R.call_matches(n.ev, t)]
+            if not hit:
+                continue
+            found += 1
+            o = R.owner_fn(ctx.prog, b)
+            ok = any(path_matches(o, k) and hit[0] in v for k, v in table.items())
+            ctx.check(ok, inst, "FORBID", o, "non-blocking acquisition / send only at the reviewed best-effort sites (found %s)" % hit[0], b.where(n.id))
+    ctx.check(found == 3, inst, "anchor", "-", "non-blocking sites in the product (expected 3, found %d)" % found, None)
+    # the acknowledged path sends its requests with a blocking send
+    b = ctx.fn("WriteBuffer::force_flush", inst)
+    if b is not None:
+        ctx.sites(b, R.call("Sender::send"), inst, floor=1)
+
+
 def check_retirement_wait(ctx):
     """flush() must not acknowledge while another flusher still holds retirements it took from the queue (their markers are
     not durable yet): flush_pending_deletions looks at the queue only after it has taken the pass mutex
@@ -755,4 +784,5 @@ def check(ctx):
     check_successor(ctx)
     check_journal_position(ctx)
     check_retirement_wait(ctx)
+    check_nonblocking_inventory(ctx)
     check_drop(ctx)
